@@ -6,6 +6,7 @@ package main
 //   case <id> bp:D(mem) | bp:D2(bp:D1(mem))
 //   fullpath <id> <b1 hex> <b2 hex> <rel hex>
 import (
+	"os"
 	"fmt"
 	"encoding/hex"
 	"path/filepath"
@@ -191,6 +192,7 @@ func runC09(c *Ctx) {
 			c.Sample("case " + stack + ": " + strings.Join(items, " ; "))
 		}
 	}
+	runC09OverUnion(c)
 	// RealPath of in-root names = Join(root, name), also for names that repeat the root's own
 	// segments (root /a, name /a/b -> /a/a/b); escaping names are C08's business
 	rk := 0
@@ -250,3 +252,67 @@ func stackRoots(stack string) []string {
 }
 
 func hexDecode(s string) ([]byte, error) { return hex.DecodeString(s) }
+
+// BasePathFs over a source whose Open and OpenFile(O_RDONLY) are different code paths (a
+// CopyOnWriteFs with a directory present in both layers): every read through the wrapper equals
+// the same read on the source under the joined path (oracle only; the twin machinery above is for
+// MemMapFs sources)
+func runC09OverUnion(c *Ctx) {
+	base, layer := afero.NewMemMapFs(), afero.NewMemMapFs()
+	afero.WriteFile(base, "/d/x/from-base.txt", []byte("B"), 0o644)
+	afero.WriteFile(base, "/d/x/both.txt", []byte("base version"), 0o644)
+	afero.WriteFile(base, "/d/only-base/f", []byte("ob"), 0o644)
+	afero.WriteFile(layer, "/d/x/from-layer.txt", []byte("L"), 0o644)
+	afero.WriteFile(layer, "/d/x/both.txt", []byte("layer"), 0o644)
+	afero.WriteFile(layer, "/d/only-layer/g", []byte("ol"), 0o644)
+	src := afero.NewCopyOnWriteFs(base, layer)
+	n := 0
+	for _, roots := range [][]string{{"/d"}, {"/", "/d"}, {"/d", "/"}, {"/d/x"}} {
+		var w afero.Fs = src
+		joined := "/"
+		for _, r := range roots {
+			w = afero.NewBasePathFs(w, r)
+			joined = filepath.Join(joined, r)
+		}
+		listing := func(fs afero.Fs, p string, how int) string {
+			var f afero.File
+			var err error
+			if how == 0 {
+				f, err = fs.Open(p)
+			} else {
+				f, err = fs.OpenFile(p, os.O_RDONLY, 0)
+			}
+			if err != nil {
+				return "err:" + errClass(err)
+			}
+			defer f.Close()
+			if how == 2 {
+				fis, err := f.Readdir(-1)
+				return listRes("infos", fisS(fis), len(fis), err)
+			}
+			names, err := f.Readdirnames(-1)
+			return listRes("names", namesS(names), len(names), err)
+		}
+		for _, p := range []string{"/", "/x", "/x/both.txt", "/only-base", "/only-layer", "/nope", "x", "./x/"} {
+			jp := filepath.Join(joined, p)
+			for how := 0; how < 3; how++ {
+				n++
+				c.Count("overunion.listing")
+				if got, want := listing(w, p, how), listing(src, jp, how); got != want {
+					c.Oracle("FAIL ou%d differs-from-twin:over-union:listing roots=%v name=%q how=%d (0 Open+Readdirnames, 1 OpenFile(O_RDONLY)+Readdirnames, 2 OpenFile+Readdir): through the wrapper %s, on the source at %q %s", n, roots, p, how, got, jp, want)
+				}
+			}
+			gs, ge := w.Stat(p)
+			ws, we := src.Stat(jp)
+			if (ge == nil) != (we == nil) || (ge == nil && (gs.IsDir() != ws.IsDir() || gs.Size() != ws.Size())) {
+				c.Oracle("FAIL ou%d differs-from-twin:over-union:Stat roots=%v name=%q: %v/%v vs %v/%v", n, roots, p, gs, ge, ws, we)
+			}
+			gb, ge2 := afero.ReadFile(w, p)
+			wb, we2 := afero.ReadFile(src, jp)
+			if string(gb) != string(wb) || errClass(ge2) != errClass(we2) {
+				c.Oracle("FAIL ou%d differs-from-twin:over-union:ReadFile roots=%v name=%q: %q,%v vs %q,%v", n, roots, p, gb, ge2, wb, we2)
+			}
+		}
+	}
+	c.Extra["over_union"] = fmt.Sprintf("%d listings/stats/reads through BasePathFs stacks over a CopyOnWriteFs with a directory in both layers (oracle only)", n)
+}
